@@ -117,6 +117,16 @@ def _convert(block, mk):
                 out.append(ast.copy_location(ast.If(test=s.test, body=b or [ast.Pass()], orelse=e), s))
                 return out, ended
             raise _CannotInline("conditional return that does not end its branch")
+        if isinstance(s, ast.Try) and not s.finalbody and not _has_return(s.body) and s.handlers \
+                and all(_always_returns(h.body) for h in s.handlers):
+            # try: A  except: H; return X   <rest>     ==     try: A  except: H; <X>  else: <rest>   (the else clause is not guarded)
+            hs = []
+            for h in s.handlers:
+                hb, _ = _convert(h.body, mk)
+                hs.append(ast.copy_location(ast.ExceptHandler(type=h.type, name=h.name, body=hb or [ast.Pass()]), h))
+            eb, ended = _convert(list(s.orelse) + rest, mk)
+            out.append(ast.copy_location(ast.Try(body=s.body, handlers=hs, orelse=eb, finalbody=[]), s))
+            return out, ended
         if isinstance(s, ast.With) and not rest:
             b, ended = _convert(s.body, mk)
             out.append(ast.copy_location(ast.With(items=s.items, body=b or [ast.Pass()]), s))
@@ -377,6 +387,24 @@ class Inliner:
                 if isinstance(s, FN + (ast.ClassDef,)):
                     i += 1
                     continue
+                # a helper call that is a direct argument of this statement's call (`out.append(self._h(x))`) and is not a single
+                # expression: hoist it into a temporary assigned just before the statement, then inline that assignment next round
+                outer = s.value if isinstance(s, (ast.Expr, ast.Assign, ast.Return)) and isinstance(getattr(s, "value", None), ast.Call) else None
+                if outer is not None:
+                    hoisted = False
+                    for ai, a in enumerate(outer.args):
+                        r2 = inl._resolve(m, cnode, a, new) if isinstance(a, ast.Call) else None
+                        if r2 and r2[0] is not fn and _inlinable_shape(r2[0]):
+                            inl._tmp = getattr(inl, "_tmp", 0) + 1
+                            tn = f"inlined_value_{inl._tmp}"
+                            block.insert(i, ast.copy_location(ast.Assign(targets=[ast.Name(id=tn, ctx=ast.Store())], value=a), s))
+                            outer.args[ai] = ast.copy_location(ast.Name(id=tn, ctx=ast.Load()), a)
+                            ast.fix_missing_locations(block[i])
+                            hoisted = True
+                            break
+                    if hoisted:
+                        changed = True
+                        continue
                 # statement-level forms
                 call = None
                 mode = None
@@ -460,24 +488,6 @@ class Inliner:
                 # expression-level: single-return helpers anywhere inside this statement's own expressions
                 if inl._subst_exprs(m, cnode, fn, s, new):
                     changed = True
-                # a helper call that is a direct argument of this statement's call (`out.append(self._h(x))`) and is not a single
-                # expression: hoist it into a temporary assigned just before the statement, then inline that assignment next round
-                outer = s.value if isinstance(s, (ast.Expr, ast.Assign, ast.Return)) and isinstance(getattr(s, "value", None), ast.Call) else None
-                if outer is not None:
-                    hoisted = False
-                    for ai, a in enumerate(outer.args):
-                        r2 = inl._resolve(m, cnode, a, new) if isinstance(a, ast.Call) else None
-                        if r2 and r2[0] is not fn and _inlinable_shape(r2[0]):
-                            inl._tmp = getattr(inl, "_tmp", 0) + 1
-                            tn = f"inlined_value_{inl._tmp}"
-                            block.insert(i, ast.copy_location(ast.Assign(targets=[ast.Name(id=tn, ctx=ast.Store())], value=a), s))
-                            outer.args[ai] = ast.copy_location(ast.Name(id=tn, ctx=ast.Load()), a)
-                            ast.fix_missing_locations(block[i])
-                            hoisted = True
-                            break
-                    if hoisted:
-                        changed = True
-                        continue
                 for fld in ("body", "orelse", "finalbody"):
                     b = getattr(s, fld, None)
                     if isinstance(b, list) and b and isinstance(b[0], ast.stmt):
